@@ -232,6 +232,41 @@ theorem encoder_and_decoder_mac_the_same_bytes (mac ol il kl op ip kp : Int)
     mac_covers_outer_then_inner mac en ol il ml kl op ip kp mp ri' ru' rc' ru2' nf' rf' rc2' rm' hd]
   rfl
 
+/-! ## `enc_encrypt`: the mirror image of `dec_decrypt` -/
+
+/-- **Encryption derives its key the way decryption does and replaces the plaintext**: on success the DEK is `mac_block` over
+    the credential's MAC (`mac_len` bytes) under the daemon's DEK key - the same call with the same arguments as in
+    `dec_decrypt` -, the cipher is initialised for ENCRYPTION and fed the whole inner layer once, the scratch buffer has
+    `inner_len + block size` bytes, and the plaintext inner buffer is wiped and freed exactly once. -/
+theorem encrypt_success_shape (c mac il iml ml dl dp ip imp mr nd rb ri nu ru rc nfn rf rc2 : Int) (ms bs : Int → Int)
+    (hil : 0 ≤ il ∧ il ≤ 2147480000) (hbs : bs c ≤ 64) (hn : 0 ≤ nu ∧ 0 ≤ nfn ∧ nu + nfn ≤ il + bs c)
+    (h : (enc_encrypt c mac il iml ml dl dp ip imp mr nd rb ri nu ru rc nfn rf rc2 ms bs).ret = 0) (hc : c ≠ 0) :
+    let o := enc_encrypt c mac il iml ml dl dp ip imp mr nd rb ri nu ru rc nfn rf rc2 ms bs
+    o.events = [("mac_block", [dl, ml]), ("malloc", [il + bs c]), ("cipher_init", [c, 1]), ("cipher_update", [il]),
+                ("cipher_final", []), ("cipher_cleanup", []), ("set:c.inner_mem", [0, wrapU64 iml]), ("free:c.inner_mem", [])] ∧
+    o.get "c.inner_len" (-1) = nu + nfn ∧ o.get "c.inner_len" (-1) ≤ o.get "c.inner_mem_len" (-1) := by
+  dsimp only
+  unfold enc_encrypt at h ⊢
+  simp only [apply_ite KOut.ret] at h
+  simp only [apply_ite KOut.events, apply_ite (fun o => KOut.get o "c.inner_len" (-1)), apply_ite (fun o => KOut.get o "c.inner_mem_len" (-1))]
+  simp only [KOut.get, KOut.written, List.find?, String.reduceBEq, wrapS32] at h ⊢
+  repeat' (first | split at h | omega)
+  all_goals (simp [*, wrapU64] ; omega)
+
+/-- **Unlike decryption, a failing `cipher_final` fails the encode**, and every failure after the allocation wipes and frees
+    the scratch buffer once while the plaintext inner layer stays in place (no half-encrypted credential is emitted). -/
+theorem encrypt_failure_is_an_error (c mac il iml ml dl dp ip imp mr nd rb ri nu ru rc nfn rf rc2 : Int) (ms bs : Int → Int)
+    (hc : c ≠ 0) (hms : 0 < ms mac) (hbs : 0 < bs c) (hmr : mr ≠ 0) (hrb : 0 ≤ rb)
+    (hf : ri < 0 ∨ ru < 0 ∨ rf < 0 ∨ rc2 < 0) :
+    let o := enc_encrypt c mac il iml ml dl dp ip imp mr nd rb ri nu ru rc nfn rf rc2 ms bs
+    o.ret = -1 ∧ o.count "free:buf" = 1 ∧ o.count "free:c.inner_mem" = 0 ∧ o.written "c.inner" = none := by
+  dsimp only
+  unfold enc_encrypt
+  simp only [apply_ite KOut.ret, apply_ite (fun o => KOut.count o "free:buf"), apply_ite (fun o => KOut.count o "free:c.inner_mem"),
+    apply_ite (fun o => KOut.written o "c.inner")]
+  simp only [KOut.count, KOut.written, List.filter, List.find?, String.reduceBEq, List.length]
+  refine ⟨?_, ?_, ?_, ?_⟩ <;> repeat' (first | split | omega | rfl)
+
 /-! ## `dec_decompress` -/
 
 /-- **A compressed inner layer that does not decompress is the generic invalid-credential error, and its scratch buffer is
